@@ -649,7 +649,8 @@ func (s *roleStub) CrossInvoke(a, m string, args ...*pb.Arg) *boltvm.Response { 
 func (s *roleStub) CrossInvokeEVM(a string, in []byte) *boltvm.Response       { return boltvm.Success(nil) }
 func (s *roleStub) EnableAudit() bool                                         { return false }
 
-func fsmTest(_ []string) error {
+func fsmTest(args []string) error {
+	quick := len(args) > 0 && args[0] == "quick"
 	var statuses = []string{"registering", "available", "unavailable", "updating", "freezing", "activating", "frozen", "logouting", "binding",
 		"unbinding", "bindable", "binded", "forbidden", "transferring", "pause", "transferred", ""}
 	var events = []string{"register", "update", "freeze", "activate", "logout", "approve", "reject", "bind", "unbind", "transfer", "pause", "unpause", "clear", "nosuch"}
@@ -688,9 +689,15 @@ func fsmTest(_ []string) error {
 		}()
 		rows = append(rows, row{kind, st, ev, last, res, flags})
 	}
+	// lastStatus only matters for the entries whose destination is lastStatus; the quick tier takes a
+	// representative subset of its values (every status and every event are always covered)
+	lasts := statuses
+	if quick {
+		lasts = []string{"", "available", "frozen", "pause", "forbidden", "bindable"}
+	}
 	for _, st := range statuses {
 		for _, ev := range events {
-			for _, last := range statuses {
+			for _, last := range lasts {
 				st, ev, last := st, ev, last
 				one("appchain", st, ev, last, func(ms *memStore) (bool, string, []bool) {
 					ms.SetObject(appchainmgr.AppchainKey("x"), &appchainmgr.Appchain{ID: "x", Status: governance.GovernanceStatus(st)})
